@@ -54,6 +54,13 @@ def main():
                              opts=rp.get("opts", opts))
             s = summarise(res, time.time() - t, hashseed)
             s["events"] = res.events
+            exp = rp.get("expected")
+            if exp and len(res.collected) > 1:
+                # enumeration runs go on after a violation: report the one this replay file is about, if it is there
+                for v in res.collected:
+                    if v.oracle == exp.get("oracle") and (not exp.get("where") or set(v.where) & set(exp["where"])):
+                        s["violation"] = v.to_json()
+                        break
             out.write(json.dumps(s) + "\n")
             return
         lo, hi = (int(x) for x in a.indices.split(":"))
